@@ -96,7 +96,7 @@ def run_prev(fzf, tmp, sc):
                 entries = read_log(log)
                 cur = st.get('current')
             curk = cur['text'].split(' ')[0] if cur else '-'
-            lastk, lastq = (entries[-1][1], entries[-1][2]) if entries else ('-', '')
+            lastk, lastq = (entries[-1][1] or '-', entries[-1][2]) if entries else ('-', '')   # no current line: {} expands to nothing
             shown = 0
             if cur:
                 for _ in range(10):
